@@ -556,6 +556,10 @@ def gen_leaf(rng, ish=None, kinds=None):
                     bm = bm[1:]
             elif r < 0.45:
                 bm = [2] + bm
+            elif r < 0.6:
+                # extra LEADING SINGLETON batch axes in the matrix (mat.ndim > len(ishape), nothing to sum over in the
+                # adjoint, but the final Reshape back to ishape is still needed)
+                bm = [1] * rng.randint(1, 2) + bm
             adjoint = int(rng.random() < 0.5)
             m = rng.randint(1, 3)
             inner = sh[-2] if kind == "matmul" else sh[-1]
@@ -703,13 +707,23 @@ def gen_tree(rng, depth, ish=None, stack_neg=False):
 
 
 # ---- matrices -----------------------------------------------------------------------------------
+
+def relayout(a, tag=0):
+    """same values, Fortran (column-major) memory order for every other call: an operator's result may not depend on
+    the memory layout of its input (flattening inside Vstack/Hstack/Diag/Reshape is row-major by definition)"""
+    a = np.asarray(a)
+    if a.ndim >= 2 and (int(tag) + a.size) % 2 == 0:
+        return np.asfortranarray(a)
+    return a
+
+
 def impl_matrix(A):
     n, m = prod(A.oshape), prod(A.ishape)
     M = np.zeros((n, m), dtype=np.complex128)
     for j in range(m):
         e = np.zeros(m, dtype=np.complex128)
         e[j] = 1
-        M[:, j] = np.asarray(A(e.reshape(A.ishape))).reshape(-1)
+        M[:, j] = np.asarray(A(relayout(e.reshape(A.ishape), j))).reshape(-1)
     return M
 
 
@@ -813,9 +827,12 @@ def findiff_spec(sh, axes):
 
 def run_corr(ctx, cases, stream, which):
     lines = ["%s mats %s" % (ctx.prop, " ".join(rpn(s))) for s, _ in cases]
-    replies = ctx.driver(lines)
+    replies = ctx.driver_guarded(lines)
     bad = 0
     for (spec, A), ln, r in zip(cases, lines, replies):
+        if r == "err model-timeout":
+            ctx.count("corr:skipped-model-timeout")   # entry list blew up under repeated composition: not compared
+            continue
         tags = node_tags(spec)
         for lf in leaves(spec):
             ctx.count("leaf:" + lf[1])
@@ -1115,8 +1132,8 @@ def dot_oracle(ctx, spec, x=None, y=None, origin="search", real=False):
         case["x"] = [[float(v.real), float(v.imag)] for v in np.asarray(x, dtype=np.complex128).reshape(-1)]
         case["y"] = [[float(v.real), float(v.imag)] for v in np.asarray(y, dtype=np.complex128).reshape(-1)]
         try:
-            Ax = np.asarray(A(x.copy()))
-            AHy = np.asarray(AH(y.copy()))
+            Ax = np.asarray(A(relayout(x.copy(), 0)))
+            AHy = np.asarray(AH(relayout(y.copy(), 1)))
             AHHx = np.asarray(AH.H(x.copy()))
         except Exception as e:
             rk = real_input_key(spec, x, y, e) if real else None
